@@ -66,6 +66,13 @@ theorem rnd_uses_locked_generator :
     rndPickerCalls.all (fun c => ["len", "rand.Intn", "rand.Seed", "var:sync.Once.Do", "time.Now", "time.Now().UnixNano"].contains c) = true := by
   decide
 
+/-- **The active table is fetched once per lookup** (`tblSnap`, the first micro-step of the model's lookup): every
+call of `Table.Lookup` / `Table.LookupHost` in `main.go`, `proxy/` and `proxy/tcp/` has `route.GetTable()` itself as
+its receiver — no table captured outside the request path keeps answering after it was replaced.  (The harness
+wires its own `HTTPProxy.Lookup`; no stream runs main.go's closures.) -/
+theorem lookups_fetch_the_active_table :
+    tableLookupReceivers ≠ [] ∧ tableLookupReceivers.all (fun r => r == "route.GetTable()") = true := by decide
+
 /-- The functions the write set was collected from still include the anchors of the property (exported entry
 points by name, the two strategies by their role in `route.Picker`). -/
 theorem lookup_reach_covers_anchors :
